@@ -26,6 +26,17 @@ type raceInput struct {
 	DynOff           bool `json:",omitempty"` // dynamic-threshold = false: the detector never builds a background
 	BadEvery         int  `json:",omitempty"` // snapseq: a bad frame after every n-th frame
 	Throttle         bool `json:",omitempty"` // snapseq: throttler on with a small bucket (6 s; minimum clip 2 s)
+	SnapConns        int  `json:",omitempty"` // snapseq: the sequence is repeated over this many connections to one process
+	Step             int  `json:",omitempty"` // snapseq: frame i carries (Base + i*Step) % 60000 + 1 (default step 1: no motion; 2: motion)
+	Base             int  `json:",omitempty"`
+}
+
+func (in raceInput) snapValue(i int) int {
+	step := in.Step
+	if step == 0 {
+		step = 1
+	}
+	return (in.Base+i*step)%60000 + 1
 }
 
 var raceVarNames = map[int]string{0: "ring-index", 1: "ring-slots", 2: "CurrentFrame", 3: "StartSnapshot", 4: "processor", 5: "headerInfo", 99: "unclassified"}
@@ -82,7 +93,7 @@ func snapSeqRun(in raceInput) (summary map[string]interface{}, ok bool) {
 	}
 	ioutil.WriteFile(filepath.Join(dir, "config.toml"), []byte(toml), 0644)
 	cmd := exec.Command(buildDir() + "/tr-driver")
-	cmd.Env = append(os.Environ(), "VERIF_DRIVER=snapseq", fmt.Sprintf("VERIF_ARGS=%s %d %d %d %d", dir, in.Frames, in.PauseUs, in.Requesters, in.BadEvery), "TZ=UTC")
+	cmd.Env = append(os.Environ(), "VERIF_DRIVER=snapseq", fmt.Sprintf("VERIF_ARGS=%s %d %d %d %d %d %d %d", dir, in.Frames, in.PauseUs, in.Requesters, in.BadEvery, max1(in.SnapConns), max1(in.Step), in.Base), "TZ=UTC")
 	stdout, _ := cmd.Output()
 	if in.Requesters > 0 {
 		// the finished files of the output directory: test recordings (uniform frames cause no motion)
@@ -91,12 +102,21 @@ func snapSeqRun(in raceInput) (summary map[string]interface{}, ok bool) {
 		var files [][]int
 		var bgs []int
 		var leftovers []string
+		motionFiles := 0
 		for _, n := range names {
 			if fi, err := os.Stat(n); err != nil || fi.IsDir() {
 				continue
 			}
 			if !strings.HasSuffix(n, ".cptv") {
 				leftovers = append(leftovers, filepath.Base(n))
+				continue
+			}
+			if in.Step >= 2 && !isTestRecording(n) {
+				// the scene warms up: motion recordings share the directory; they must decode, no more is asked here
+				if v := uniformFrameValues(n); len(v) > 0 && v[len(v)-1] == -1 {
+					leftovers = append(leftovers, filepath.Base(n)+" (does not decode)")
+				}
+				motionFiles++
 				continue
 			}
 			files = append(files, uniformFrameValues(n))
@@ -107,6 +127,7 @@ func snapSeqRun(in raceInput) (summary map[string]interface{}, ok bool) {
 				summary["test_files"] = files
 				summary["test_backgrounds"] = bgs
 				summary["leftovers"] = leftovers
+				summary["motion_files"] = motionFiles
 			}
 		}()
 	}
@@ -144,6 +165,23 @@ func uniformFrameValues(path string) []int {
 	return vals
 }
 
+func max1(x int) int {
+	if x < 1 {
+		return 1
+	}
+	return x
+}
+
+// a test recording is started with threshold 0 (its header says "triggeredthresh: 0")
+func isTestRecording(path string) bool {
+	r, err := cptv.NewFileReader(path)
+	if err != nil {
+		return true // judged (and failed) as a test recording
+	}
+	defer r.Close()
+	return strings.Contains(r.MotionConfig(), "triggeredthresh: 0\n")
+}
+
 // pixel (60,80) of the background frame a CPTV file starts with (-1: none, -2: file does not decode)
 func backgroundValue(path string) int {
 	r, err := cptv.NewFileReader(path)
@@ -167,6 +205,20 @@ func init() {
 		for i := 0; i < n; i++ {
 			every := 23 + rng.Intn(30)
 			in := raceInput{Preview: 1, Trigger: 2, Frames: 150 + rng.Intn(60), Conns: 1, Requesters: every, PauseUs: []int{0, 40}[i%2], Const: i%2 == 0, DynOff: i%2 == 1, Throttle: i%2 == 1}
+			switch i % 4 {
+			case 2:
+				// the camera reconnects: the same request offsets again on the second connection
+				in.SnapConns, in.Frames = 2+i/4%2, 100+rng.Intn(30)
+				if i/4%2 == 0 {
+					// ONE request per connection, at the same frame count in each
+					in.Requesters = in.Frames - 30 - rng.Intn(15)
+					in.SnapConns = 3
+				}
+			case 3:
+				// a scene that warms up fast enough to be motion all the time: test recordings overlap motion recordings
+				in.DynOff, in.Throttle, in.PauseUs = false, false, 0
+				in.Step, in.Base = 2, 3000
+			}
 			sum, ok := snapSeqRun(in)
 			why := ""
 			var reqs []int
@@ -187,7 +239,7 @@ func init() {
 					for _, first := range []int{reqs[k], reqs[k] + 1} {
 						want := make([]int, 21)
 						for j := range want {
-							want[j] = (first+j)%60000 + 1
+							want[j] = in.snapValue(first + j)
 						}
 						if fmt.Sprint(files[k]) == fmt.Sprint(want) {
 							match = true
@@ -197,10 +249,10 @@ func init() {
 						ok, why = false, why+fmt.Sprintf(" [request after frame %d: file holds %v]", reqs[k], files[k])
 					}
 				}
-				// the background frame a test recording starts with is the detector's: the first frame (value 2;
+				// the background frame a test recording starts with is the detector's: the first frame of the connection (
 				// later frames only grow, so it is never replaced) or, with the dynamic threshold off, the
 				// never-updated all-zero frame
-				wantBg := 2
+				wantBg := in.snapValue(1)
 				if in.DynOff {
 					wantBg = 0
 				}
@@ -218,7 +270,7 @@ func init() {
 			}
 			emit(Case{Coq: fmt.Sprintf("mkLag %s %d %d", coqBool(ok), len(reqs), in.Frames), Input: in,
 				Impl: map[string]interface{}{"ok": ok, "why": why, "summary": sum},
-				Tags: []string{fmt.Sprintf("test-requests=%d", len(reqs)), "test-recording-e2e"}, Nontriv: len(reqs) >= 2, Key: fmt.Sprint("testrec", every, in.Frames)})
+				Tags: []string{fmt.Sprintf("test-requests=%d", len(reqs)), "test-recording-e2e", fmt.Sprintf("connections=%d", max1(in.SnapConns)), fmt.Sprintf("motion-recordings-alongside=%v", sum != nil && num(sum["motion_files"]) > 0)}, Nontriv: len(reqs) >= 2, Key: fmt.Sprint("testrec", every, in.Frames)})
 		}
 	}
 }
@@ -356,6 +408,9 @@ func init() {
 func num(v interface{}) int {
 	if f, ok := v.(float64); ok {
 		return int(f)
+	}
+	if i, ok := v.(int); ok {
+		return i
 	}
 	return 0
 }
